@@ -31,7 +31,7 @@ for i in ids:
 man = {
     "version": 1,
     "setup_cmd": "cd /verif/engine && GOFLAGS=-mod=mod GOPROXY=off GOSUMDB=off GOTOOLCHAIN=local go build -o /verif/bin/vcheck ./cmd/vcheck",
-    "hooks": {"guard": "verif", "enable": "go test -tags verif (only native counterexample replay builds /repo with the tag; the solver side reads source)",
+    "hooks": {"guard": "verif", "enable": "build tag verif: native counterexample replay runs go test -tags verif; the C19 check loads pkg/sleep with -tags verif so that the Go commitSleep of hook H1 is the encoded body; every other check reads the untagged source",
               "baseline_off_cmd": baseline, "source_commits": hooks.get("source_commits", []), "add_only": True},
     "engines": [{"name": "gosmt", "path": "/verif/engine", "serves_properties": [c['property_id'] for c in checks],
                  "kind_free_text": "own Go-SSA (x/tools go/ssa v0.29.0) -> SMT-LIB2 symbolic executor; harnesses injected by packages.Config.Overlay; z3 5.1.0/4.8.12 and cvc5 1.0 back ends; counterexamples replayed natively with go test -overlay"}],
